@@ -28,6 +28,14 @@ pub(super) fn run_write(invocation: ToolInvocation, config: &BuiltinToolConfig) 
         Err(err) => return ToolOutput::failure(vec![err]),
     };
 
+    // `.`, `./` and the empty string resolve to the root itself: there is no file to write, and
+    // the sibling temporary / parent directory of the root would lie outside the workspace.
+    if path == config.workspace_root {
+        return ToolOutput::failure(vec![
+            "write failed: path names the workspace root".to_string()
+        ]);
+    }
+
     let create = args.create.unwrap_or(true);
     let append = args.append.unwrap_or(false);
     let atomic = args.atomic.unwrap_or(true);
